@@ -127,17 +127,17 @@ def _phase1_mod(c):
     return out
 
 
-def offered_ok(c, h, x):
+def offered_ok(c, h, x, g=None):
     """what C18 allows to be offered from the graph itself"""
-    g = c.arg("self")
+    g = c.arg("self") if g is None else g
     s = task_state(c.pre, x)
     return z3.And(in_graph(c.pre, g, x), s != COMPLETED, s != CANCELLED, s != RUNNING, z3.Implies(s == SCHEDULED, c.arg("retract_schedules")))
 
 
-def must_offer(c, x):
+def must_offer(c, x, g=None):
     """C18: what is always offered -- a released task whose release time has arrived (within the lookahead), and a
     preempted / evicted task"""
-    g = c.arg("self")
+    g = c.arg("self") if g is None else g
     s = task_state(c.pre, x)
     rel = c.pre.rd(x, TASK, "_release_time")[1]
     return z3.And(in_graph(c.pre, g, x), z3.Or(z3.And(s == RELEASED, us(rel) <= us(c.arg("time")) + us(c.arg("lookahead"))), s == PREEMPTED, s == EVICTED))
@@ -206,5 +206,117 @@ Contract(
     entry_facts=lambda c: [closed_graph(c, c.arg("self"))],
     allocates=True,
     note="phase 1 (estimated completion times) is only shown to stay inside its local work list and map; exceptions (unknown state, cycle, a task without strategies) propagate unconstrained",
+    props=P18,
+)
+
+
+# =================================================================================================
+# Workload.get_schedulable_tasks : the offer over ALL task graphs of the workload (no graph is skipped)
+# =================================================================================================
+WORKLOAD = "workload.workload.Workload"
+TGMap = T.Dict(T.STR, TGR)
+
+
+def wl_graphs(h, w):
+    return h.rd(w, WORKLOAD, "_task_graphs")[1]
+
+
+def graph_at(h, w, k):
+    d = wl_graphs(h, w)
+    return h.d_val(TGMap, d, h.d_key(TGMap, d, k))
+
+
+def n_graphs(h, w):
+    return h.c_len(TGMap, wl_graphs(h, w))
+
+
+def _wgst_requires(c):
+    w = c.arg("self")
+    k = z3.Int(H.fresh_name("wg_k"))
+    gk = graph_at(c.pre, w, k)
+    return {
+        "graphs_wf": z3.ForAll([k], z3.Implies(z3.And(0 <= k, k < n_graphs(c.pre, w)), z3.And(gk != 0, g_children(c.pre, gk) != g_parents(c.pre, gk), node_wf(c.pre, gk))), patterns=[gk]),
+        "lookahead_nonneg": us(c.arg("lookahead")) >= 0,
+    }
+
+
+def closed_workload(c):
+    """heap closedness: the graphs of the workload, their adjacency lists and the tasks in them were allocated before entry"""
+    w = c.arg("self")
+    k, x, j = z3.Int(H.fresh_name("cw_k")), z3.Int(H.fresh_name("cw_x")), z3.Int(H.fresh_name("cw_j"))
+    gk = graph_at(c.pre, w, k)
+    rng = z3.And(0 <= k, k < n_graphs(c.pre, w))
+    facts = [wl_graphs(c.pre, w) < c.alloc0, z3.ForAll([k], z3.Implies(rng, z3.And(gk > 0, gk < c.alloc0, g_children(c.pre, gk) < c.alloc0, g_parents(c.pre, gk) < c.alloc0)), patterns=[gk])]
+    for dsel in (g_children, g_parents):
+        d = dsel(c.pre, gk)
+        lst = c.pre.d_val(Adj, d, x)
+        facts.append(z3.ForAll([k, x], z3.Implies(z3.And(rng, c.pre.d_dom(Adj, d, x)), z3.And(lst > 0, lst < c.alloc0, x < c.alloc0)), patterns=[c.pre.d_val(Adj, d, x)]))
+        facts.append(z3.ForAll([k, x, j], z3.Implies(z3.And(rng, c.pre.d_dom(Adj, d, x), 0 <= j, j < c.pre.c_len(TaskList, lst)), z3.And(c.pre.l_elem(TaskList, lst, j) > 0, c.pre.l_elem(TaskList, lst, j) < c.alloc0)), patterns=[c.pre.l_elem(TaskList, lst, j)]))
+    return Fact("heap.closed", z3.And(*facts))
+
+
+def _wgst_inv(c, L):
+    w = c.arg("self")
+    h = c.post
+    out = L.var("schedulable_tasks")
+    k, x = z3.Int(H.fresh_name("wi_k")), z3.Int(H.fresh_name("wi_x"))
+    gk = graph_at(c.pre, w, k)
+    return {
+        "list_fresh": z3.And(out >= c.alloc0, out < c.run.cur_alloc()),
+        # C18 at workload level: nothing that must be offered by an already visited graph is missing
+        "visited_graphs_not_starved": z3.ForAll([k, x], z3.Implies(z3.And(0 <= k, k < L.i, k < n_graphs(c.pre, w), must_offer(c, x, gk)), h.l_mem(TaskList, out, x)), patterns=[z3.MultiPattern(gk, in_graph(c.pre, gk, x))]),
+        "only_allowed_without_preemption": z3.Implies(
+            z3.Not(c.arg("preemption")),
+            z3.ForAll([x], z3.Implies(h.l_mem(TaskList, out, x), z3.Exists([k], z3.And(0 <= k, k < L.i, k < n_graphs(c.pre, w), offered_ok(c, h, x, gk)))), patterns=[h.l_mem(TaskList, out, x)]),
+        ),
+    }
+
+
+def _wgst_mod(c):
+    fr = c.run.frames[-1].env
+    t = fr.get("schedulable_tasks")
+    return {c.pre.carr(TaskList, p_)[0]: [t.z] for p_ in ("len", "elem")}
+
+
+def _wgst_ens(c):
+    w = c.arg("self")
+    k, x = z3.Int(H.fresh_name("we_k")), z3.Int(H.fresh_name("we_x"))
+    gk = graph_at(c.pre, w, k)
+    n = n_graphs(c.pre, w)
+    return {
+        # C18: no ready task of ANY task graph of the workload is starved (no graph is skipped)
+        "frontier.no_graph_skipped": z3.ForAll([k, x], z3.Implies(z3.And(0 <= k, k < n, must_offer(c, x, gk)), c.post.l_mem(TaskList, c.res, x)), patterns=[z3.MultiPattern(gk, in_graph(c.pre, gk, x))]),
+        "frontier.only_allowed_without_preemption": z3.Implies(
+            z3.Not(c.arg("preemption")),
+            z3.ForAll([x], z3.Implies(c.post.l_mem(TaskList, c.res, x), z3.Exists([k], z3.And(0 <= k, k < n, offered_ok(c, c.post, x, gk)))), patterns=[c.post.l_mem(TaskList, c.res, x)]),
+        ),
+    }
+
+
+Contract(
+    WORKLOAD + ".get_schedulable_tasks#body",
+    params={
+        "self": T.Ref(WORKLOAD),
+        "time": ETy,
+        "lookahead": ETy,
+        "preemption": T.BOOL,
+        "retract_schedules": T.BOOL,
+        "worker_pools": S_.nullable(WPS),
+        "policy": T.OPAQUE,
+        "branch_prediction_accuracy": T.OPAQUE,
+        "release_taskgraphs": T.BOOL,
+        "debug": T.BOOL,
+    },
+    ret=TaskList,
+    requires=_wgst_requires,
+    may_raise=("ValueError", "RuntimeError", "AttributeError"),
+    raise_unchanged=False,
+    modifies=lambda c: {},
+    loops={0: Loop(inv=_wgst_inv, modifies=_wgst_mod)},
+    locals={"schedulable_tasks": TaskList},
+    ensures=_wgst_ens,
+    entry_facts=lambda c: [closed_workload(c)],
+    allocates=True,
+    note="the workload-level offer is the concatenation of the per-graph offers over EVERY task graph; the callers (EDF / FIFO / LSF) use the plain contract (offered tasks are well-formed tasks)",
     props=P18,
 )
